@@ -31,14 +31,17 @@ VARIABLES l,        \* next event
           partsOf,  \* set of <<snap, part>>
           zeroed,   \* part wrappers released
           removableZ, \* released wrappers that were flagged removable
-          removed   \* part wrappers whose directory removal was announced
+          removed,  \* part wrappers whose directory removal was announced
+          filePids, \* set of <<snap, pid>>: file-backed parts of a published snapshot
+          snapOpen, \* file snapshots in progress: set of <<id, tbl>>
+          snapSaw   \* set of <<id, snap>>: snapshots that were current at some moment of file snapshot id
 
-vars == <<l, cur, epochOf, live, dead, partsOf, zeroed, removableZ, removed>>
+vars == <<l, cur, epochOf, live, dead, partsOf, zeroed, removableZ, removed, filePids, snapOpen, snapSaw>>
 
 SetOf(seq) == { seq[i] : i \in 1..Len(seq) }
 
 TraceInit == /\ l = 1 /\ cur = {} /\ epochOf = {} /\ live = {} /\ dead = {} /\ partsOf = {}
-             /\ zeroed = {} /\ removableZ = {} /\ removed = {}
+             /\ zeroed = {} /\ removableZ = {} /\ removed = {} /\ filePids = {} /\ snapOpen = {} /\ snapSaw = {}
 
 Ev == Trace[l]
 Is(name) == l <= Len(Trace) /\ Ev.event = name /\ l' = l + 1
@@ -57,12 +60,14 @@ Replace ==
      /\ epochOf' = { pr \in epochOf : pr[1] # Ev.tbl } \cup { <<Ev.tbl, Ev.epoch>> }
      /\ live' = live \cup { Ev.snap }
      /\ partsOf' = partsOf \cup { <<Ev.snap, p>> : p \in ps }
-  /\ UNCHANGED <<dead, zeroed, removableZ, removed>>
+     /\ filePids' = filePids \cup { <<Ev.snap, Ev.pids[i]>> : i \in { j \in 1..Len(Ev.parts) : Ev.parts[j] \notin SetOf(Ev.mem) } }
+     /\ snapSaw' = snapSaw \cup { <<o[1], Ev.snap>> : o \in { x \in snapOpen : x[2] = Ev.tbl } }
+  /\ UNCHANGED <<dead, zeroed, removableZ, removed, snapOpen>>
 
 SnapInc ==          \* pinning a dead snapshot would resurrect freed parts
   /\ Is("SnapInc")
   /\ Ev.snap \notin dead
-  /\ UNCHANGED <<cur, epochOf, live, dead, partsOf, zeroed, removableZ, removed>>
+  /\ UNCHANGED <<cur, epochOf, live, dead, partsOf, zeroed, removableZ, removed, filePids, snapOpen, snapSaw>>
 
 SnapDec ==
   /\ Is("SnapDec")
@@ -74,7 +79,7 @@ SnapDec ==
             \* either way it stops being current
             /\ cur' = { pr \in cur : pr[2] # Ev.snap }
        ELSE UNCHANGED <<dead, live, cur>>
-  /\ UNCHANGED <<epochOf, partsOf, zeroed, removableZ, removed>>
+  /\ UNCHANGED <<epochOf, partsOf, zeroed, removableZ, removed, filePids, snapOpen, snapSaw>>
 
 PartZero ==         \* the last reference goes only after every snapshot holding the part is dead
   /\ Is("PartZero")
@@ -82,7 +87,7 @@ PartZero ==         \* the last reference goes only after every snapshot holding
   /\ LiveHolders(Ev.part) = {}
   /\ zeroed' = zeroed \cup { Ev.part }
   /\ removableZ' = IF Ev.removable THEN removableZ \cup { Ev.part } ELSE removableZ
-  /\ UNCHANGED <<cur, epochOf, live, dead, partsOf, removed>>
+  /\ UNCHANGED <<cur, epochOf, live, dead, partsOf, removed, filePids, snapOpen, snapSaw>>
 
 PartRemove ==       \* files are deleted once, only for replaced (removable) parts, only after release
   /\ Is("PartRemove")
@@ -90,9 +95,33 @@ PartRemove ==       \* files are deleted once, only for replaced (removable) par
   /\ Ev.part \notin removed
   /\ LiveHolders(Ev.part) = {}
   /\ removed' = removed \cup { Ev.part }
-  /\ UNCHANGED <<cur, epochOf, live, dead, partsOf, zeroed, removableZ>>
+  /\ UNCHANGED <<cur, epochOf, live, dead, partsOf, zeroed, removableZ, filePids, snapOpen, snapSaw>>
 
-TraceNext == Replace \/ SnapInc \/ SnapDec \/ PartZero \/ PartRemove
+\* ---- file snapshots (C19): the copy holds exactly the file parts of ONE snapshot that was current during the
+\* call, its manifest lists nothing that is not in the copy, and the copy opens with exactly those parts
+FileSnapBegin ==
+  /\ Is("FileSnapBegin")
+  /\ snapOpen' = snapOpen \cup { <<Ev.id, Ev.tbl>> }
+  /\ snapSaw' = snapSaw \cup { <<Ev.id, pr[2]>> : pr \in { x \in cur : x[1] = Ev.tbl } }
+  /\ UNCHANGED <<cur, epochOf, live, dead, partsOf, zeroed, removableZ, removed, filePids>>
+
+FilePidsOf(s) == { pr[2] : pr \in { x \in filePids : x[1] = s } }
+
+FileSnapEnd ==
+  /\ Is("FileSnapEnd")
+  /\ <<Ev.id, Ev.tbl>> \in snapOpen
+  /\ LET copied == SetOf(Ev.copied) listed == SetOf(Ev.listed) opened == SetOf(Ev.opened)
+         seen == { pr[2] : pr \in { x \in snapSaw : x[1] = Ev.id } }
+     IN IF Ev.wrote
+          THEN /\ \E s \in seen : FilePidsOf(s) = copied      \* SnapshotEqualsSomeState
+               /\ listed \subseteq copied                      \* ManifestPartsPresent
+               /\ opened = copied                              \* the copy opens with exactly its parts
+          ELSE copied = {}
+  /\ snapOpen' = snapOpen \ { <<Ev.id, Ev.tbl>> }
+  /\ snapSaw' = { x \in snapSaw : x[1] # Ev.id }
+  /\ UNCHANGED <<cur, epochOf, live, dead, partsOf, zeroed, removableZ, removed, filePids>>
+
+TraceNext == Replace \/ SnapInc \/ SnapDec \/ PartZero \/ PartRemove \/ FileSnapBegin \/ FileSnapEnd
 
 TraceSpec == TraceInit /\ [][TraceNext]_vars
 
